@@ -255,6 +255,7 @@ def run(rep: vk.Report):
     from scipy.optimize import linprog as sp_linprog
     from optyx.solution import SolverStatus
     from optyx.analysis import is_linear
+    from optyx import Variable, Problem
     NAME = {SolverStatus.OPTIMAL: "OPTIMAL", SolverStatus.INFEASIBLE: "INFEASIBLE", SolverStatus.UNBOUNDED: "UNBOUNDED",
             SolverStatus.MAX_ITERATIONS: "MAX_ITERATIONS", SolverStatus.FAILED: "FAILED"}
     REF = {0: "OPTIMAL", 1: "MAX_ITERATIONS", 2: "INFEASIBLE", 3: "UNBOUNDED", 4: "FAILED"}
@@ -335,6 +336,32 @@ def run(rep: vk.Report):
                 if not (is_linear(P.objective) and all(is_linear(c.expr) for c in P.constraints)):
                     break
                 compare(f"after edit {step + 1}", P.solve(method=meth))
+            if P.constraints and r.random() < 0.5 and is_linear(P.objective) and all(is_linear(c.expr) for c in P.constraints):
+                # a VARIANT of the model that shares the constraint OBJECTS with the problem just solved (scenario study): same number of
+                # columns where possible - one objective-only variable replaced by a new one that sorts elsewhere - or one column more
+                cons_objs = list(P.constraints)
+                Vp = list(P.variables)
+                cvn = set()
+                for c_ in cons_objs:
+                    cvn |= set(v.name for v in c_.get_variables())
+                cand = [v for v in Vp[1:] if v.name not in cvn]
+                drop = r.choice(cand) if cand and r.random() < 0.7 else None
+                newv = gen.Variable(r.choice(["zz_new", "m_new", Vp[0].name + "_0new"]), lb=0.0, ub=2.0)
+                obj2 = 1.5 * newv
+                for j_, v in enumerate(Vp):
+                    if v is not drop:
+                        obj2 = obj2 + float((j_ % 3) + 1) * (0.5 if ref0.mx else 1.0) * v
+                P2, ref2 = Problem(), RefLP()
+                ref2.objective(obj2, ref0.mx)
+                (P2.maximize if ref0.mx else P2.minimize)(obj2)
+                for c_ in cons_objs:
+                    ref2.constraint(c_)
+                    P2.subject_to(c_)
+                P, ref0 = P2, ref2
+                hist.append("variant sharing the constraint objects" + (" (one column replaced)" if drop is not None else " (one column more)"))
+                histories["variant"] = histories.get("variant", 0) + 1
+                compare("variant solve 1", P.solve(method=meth))
+                compare("variant solve 2", P.solve(method=meth))
     sfails = seam.run(shard=100)
     for i in sfails:
         wit = c05.point_identity_witness(keep[i], keep[i]._lp_cache, rng) if keep[i]._lp_cache is not None else None
